@@ -496,6 +496,10 @@ func fixedWorkloadTexts() []string {
 		"typeof this, $wa = 1, $wb ?? 'none'",
 		"typeof this, $wb = 2, $wa ?? 'none'",
 		"[this.zz, $wc = (($wc ?? 0) + 1), typeof this]",
+		// several arguments that are calls of context-taking host functions, binding and reading a local on the way:
+		// one evaluation is one goroutine's business, left to right
+		"fnV(fnC($q = saltn), fnC($q), fnC($q = 2), fnC($q + 0))",
+		"fnSV(salt, nested(saltn % 5), nested($r = 3), nested($r))",
 		// a host function that evaluates another formula (on a runner of its own) while the outer evaluation waits for it
 		"[nested(saltn), nested(saltn % 7) + 1, salt]",
 		// a host function that asks for "its" runner (RunnerFromCtx): the one its caller put into the context, or none
